@@ -349,6 +349,15 @@ func atomOf(cond ssa.Value, val bool) Atom {
 }
 
 func atomsOfBlock(b *ssa.BasicBlock) []Atom {
+	out := atomsOfBlockLocal(b)
+	// a helper's body also runs under the flag / legacy guards common to all its call sites
+	if b != nil && b.Parent() != nil {
+		out = append(out, inheritedAtoms(b.Parent(), 2)...)
+	}
+	return out
+}
+
+func atomsOfBlockLocal(b *ssa.BasicBlock) []Atom {
 	var out []Atom
 	for _, l := range guardsOf(b) {
 		out = append(out, atomOf(l.Cond, l.Val))
@@ -852,4 +861,296 @@ func errResultIndex(sig *types.Signature) int {
 		}
 	}
 	return -1
+}
+
+// ---------------------------------------------------------------------------
+// Module-local call structure (helpers extracted by a refactoring are followed)
+
+func inModule(f *ssa.Function) bool {
+	return f != nil && f.Pkg != nil && strings.HasPrefix(f.Pkg.Pkg.Path(), modPath) && len(f.Blocks) > 0
+}
+
+// calleesOf: module functions that fn may run synchronously: static callees of
+// call and defer instructions, and function literals it creates and calls or
+// defers (not those it starts with go).
+func calleesOf(fn *ssa.Function) []*ssa.Function {
+	seen := map[*ssa.Function]bool{}
+	var out []*ssa.Function
+	add := func(f *ssa.Function) {
+		if inModule(f) && !seen[f] {
+			seen[f] = true
+			out = append(out, f)
+		}
+	}
+	allInstrs(fn, func(in ssa.Instruction) {
+		ci, ok := in.(ssa.CallInstruction)
+		if !ok {
+			return
+		}
+		if _, isGo := in.(*ssa.Go); isGo {
+			return
+		}
+		if f := staticCallee(ci); f != nil {
+			add(f)
+			return
+		}
+		if mc, isMC := ci.Common().Value.(*ssa.MakeClosure); isMC {
+			if f, isF := mc.Fn.(*ssa.Function); isF {
+				add(f)
+			}
+		}
+	})
+	return out
+}
+
+// reachesFn: target is reachable from fn through synchronous module calls.
+func reachesFn(fn, target *ssa.Function) bool {
+	seen := map[*ssa.Function]bool{}
+	var rec func(f *ssa.Function) bool
+	rec = func(f *ssa.Function) bool {
+		if f == target {
+			return true
+		}
+		if seen[f] {
+			return false
+		}
+		seen[f] = true
+		for _, g := range calleesOf(f) {
+			if rec(g) {
+				return true
+			}
+		}
+		// direct (non-module) static callee equal to target is covered by inModule(target)
+		return false
+	}
+	return rec(fn)
+}
+
+// goTarget: the function started by a go statement (closure or named), or nil.
+func goTarget(g *ssa.Go) *ssa.Function {
+	if f := g.Call.StaticCallee(); f != nil {
+		return f
+	}
+	if mc, ok := g.Call.Value.(*ssa.MakeClosure); ok {
+		if f, isF := mc.Fn.(*ssa.Function); isF {
+			return f
+		}
+	}
+	return nil
+}
+
+// deepCalls visits every call instruction reachable from fn through
+// synchronous module calls (bounded depth), with the chain of call sites that
+// leads to it (outermost first).
+func deepCalls(fn *ssa.Function, depth int, visit func(ci ssa.CallInstruction, chain []ssa.CallInstruction)) {
+	var rec func(f *ssa.Function, chain []ssa.CallInstruction, d int, onStack map[*ssa.Function]bool)
+	rec = func(f *ssa.Function, chain []ssa.CallInstruction, d int, onStack map[*ssa.Function]bool) {
+		for _, ci := range callsIn(f) {
+			visit(ci, chain)
+			if d <= 0 {
+				continue
+			}
+			if _, isGo := ci.(*ssa.Go); isGo {
+				continue
+			}
+			g := staticCallee(ci)
+			if g == nil {
+				if mc, isMC := ci.Common().Value.(*ssa.MakeClosure); isMC {
+					g, _ = mc.Fn.(*ssa.Function)
+				}
+			}
+			if inModule(g) && !onStack[g] {
+				onStack[g] = true
+				rec(g, append(append([]ssa.CallInstruction{}, chain...), ci), d-1, onStack)
+				delete(onStack, g)
+			}
+		}
+	}
+	rec(fn, nil, depth, map[*ssa.Function]bool{fn: true})
+}
+
+// chainAtoms: guard atoms that hold at a call reached through chain: those of
+// the call's own block and of every call site on the chain.
+func chainAtoms(ci ssa.Instruction, chain []ssa.CallInstruction) []Atom {
+	out := append([]Atom{}, atomsOfBlock(ci.Block())...)
+	for _, c := range chain {
+		out = append(out, atomsOfBlock(c.Block())...)
+	}
+	return out
+}
+
+// ---------------------------------------------------------------------------
+// Call-site index and helper contexts
+
+var siteIndex = map[*ssa.Program]map[*ssa.Function][]ssa.CallInstruction{}
+
+// callSitesOf: synchronous, statically resolved call sites of f inside the
+// module (go statements are not included).
+func callSitesOf(f *ssa.Function) []ssa.CallInstruction {
+	if f == nil || f.Prog == nil {
+		return nil
+	}
+	idx, ok := siteIndex[f.Prog]
+	if !ok {
+		idx = map[*ssa.Function][]ssa.CallInstruction{}
+		var visit func(g *ssa.Function)
+		visit = func(g *ssa.Function) {
+			for _, ci := range callsIn(g) {
+				if _, isGo := ci.(*ssa.Go); isGo {
+					continue
+				}
+				if t := staticCallee(ci); inModule(t) {
+					idx[t] = append(idx[t], ci)
+				}
+			}
+			for _, a := range g.AnonFuncs {
+				visit(a)
+			}
+		}
+		for _, pkg := range f.Prog.AllPackages() {
+			if pkg.Pkg == nil || !strings.HasPrefix(pkg.Pkg.Path(), modPath) {
+				continue
+			}
+			for _, m := range pkg.Members {
+				if g, isF := m.(*ssa.Function); isF {
+					visit(g)
+				}
+			}
+			// methods
+			for _, m := range pkg.Members {
+				if t, isT := m.(*ssa.Type); isT {
+					for _, typ := range []types.Type{t.Type(), types.NewPointer(t.Type())} {
+						ms := f.Prog.MethodSets.MethodSet(typ)
+						for i := 0; i < ms.Len(); i++ {
+							if g := f.Prog.MethodValue(ms.At(i)); g != nil && g.Synthetic == "" && len(g.Blocks) > 0 {
+								visit(g)
+							}
+						}
+					}
+				}
+			}
+		}
+		// de-duplicate (methods are visited through both method sets)
+		for k, v := range idx {
+			seen := map[ssa.CallInstruction]bool{}
+			var d []ssa.CallInstruction
+			for _, ci := range v {
+				if !seen[ci] {
+					seen[ci] = true
+					d = append(d, ci)
+				}
+			}
+			idx[k] = d
+		}
+		siteIndex[f.Prog] = idx
+	}
+	return idx[f]
+}
+
+// isHelper: an unexported module function or method that is only ever called
+// directly (never stored, passed or started with go): its body runs in the
+// context of its call sites.
+func isHelper(f *ssa.Function) bool {
+	if !inModule(f) || f.Parent() != nil || len(callSitesOf(f)) == 0 {
+		return false
+	}
+	if f.Object() != nil && f.Object().Exported() {
+		return false
+	}
+	return true
+}
+
+// contextsOf: the functions in whose context f's body runs: f itself, or, for a
+// helper, the contexts of its callers (bounded depth).
+func contextsOf(f *ssa.Function, depth int) []*ssa.Function {
+	if depth <= 0 || !isHelper(f) {
+		return []*ssa.Function{f}
+	}
+	seen := map[*ssa.Function]bool{}
+	var out []*ssa.Function
+	for _, ci := range callSitesOf(f) {
+		for _, g := range contextsOf(ci.Parent(), depth-1) {
+			if !seen[g] {
+				seen[g] = true
+				out = append(out, g)
+			}
+		}
+	}
+	return out
+}
+
+// deepFuncs: fn and the helpers (see isHelper) it calls synchronously, transitively.
+func deepFuncs(fn *ssa.Function, depth int) []*ssa.Function {
+	seen := map[*ssa.Function]bool{fn: true}
+	out := []*ssa.Function{fn}
+	var rec func(f *ssa.Function, d int)
+	rec = func(f *ssa.Function, d int) {
+		if d <= 0 {
+			return
+		}
+		for _, g := range calleesOf(f) {
+			if !seen[g] && isHelper(g) {
+				seen[g] = true
+				out = append(out, g)
+				rec(g, d-1)
+			}
+		}
+	}
+	rec(fn, depth)
+	return out
+}
+
+// allInstrsDeep / callsInDeep: like allInstrs / callsIn over deepFuncs(fn, 2).
+func allInstrsDeep(fn *ssa.Function, f func(ssa.Instruction)) {
+	for _, g := range deepFuncs(fn, 2) {
+		allInstrs(g, f)
+	}
+}
+
+func callsInDeep(fn *ssa.Function) []ssa.CallInstruction {
+	var out []ssa.CallInstruction
+	for _, g := range deepFuncs(fn, 2) {
+		out = append(out, callsIn(g)...)
+	}
+	return out
+}
+
+// inheritedAtoms: flag / legacy guard atoms that hold at every call site of the
+// helper f (and therefore inside it).
+func inheritedAtoms(f *ssa.Function, depth int) []Atom {
+	if depth <= 0 || !isHelper(f) {
+		return nil
+	}
+	sites := callSitesOf(f)
+	var common map[string]Atom
+	for _, ci := range sites {
+		here := map[string]Atom{}
+		for _, a := range atomsOfBlockLocal(ci.Block()) {
+			if a.Kind == "flag" || a.Kind == "legacy" {
+				here[a.String()] = a
+			}
+		}
+		for _, a := range inheritedAtoms(ci.Parent(), depth-1) {
+			here[a.String()] = a
+		}
+		if common == nil {
+			common = here
+			continue
+		}
+		for k := range common {
+			if _, ok := here[k]; !ok {
+				delete(common, k)
+			}
+		}
+	}
+	var out []Atom
+	var keys []string
+	for k := range common {
+		keys = append(keys, k)
+	}
+	sort.Strings(keys)
+	for _, k := range keys {
+		out = append(out, common[k])
+	}
+	return out
 }
